@@ -236,9 +236,16 @@ def s20_circles(ctx):
         seed = rng.randint(0, 2**31)
         random.seed(seed)
         np.random.seed(seed % 2**32)
-        sampler = NetworkRandomSampler(trace_gdf=traces, area_gdf=gpd.GeoDataFrame(geometry=[target]), min_radius=rmin, snap_threshold=0.001, random_choice=mode, name="s")
         determine = i % 10 == 0
-        sample = sampler.random_network_sample(determine_branches_nodes=determine)
+        try:
+            sampler = NetworkRandomSampler(trace_gdf=traces, area_gdf=gpd.GeoDataFrame(geometry=[target]), min_radius=rmin, snap_threshold=0.001, random_choice=mode, name="s")
+            sample = sampler.random_network_sample(determine_branches_nodes=determine)
+        except Exception as e:  # noqa: BLE001
+            res.evaluations += 1
+            res.disagreements.append(Disagreement("S20-circles", {"stream": "S20-circles", "seed": seed, "R": R, "centre": [cx, cy], "rmin": rmin, "mode": mode.value, "case_number": i},
+                                                  "a sample circle inside the target", f"{type(e).__name__}: {str(e)[:200]}", True,
+                                                  "sampling raised for a minimum radius below the target radius (after earlier samplers of the same name in this process)"))
+            continue
         # the target circle's radius and centre are taken from the circle the sampler was GIVEN, not read back from the sampler (all samplers of a
         # run share one name, as networks left at their default name do: nothing may be remembered per name)
         Rmax = float(np.sqrt(target.area / np.pi))
